@@ -49,6 +49,8 @@ func gen(r *Rng, tier string, emit Emit) {
 		// term and evaluates the decidable well-formedness check)
 		if spec, ok := uefigen.SpecString(reg); ok {
 			emit("C", "grammar", H(img), spec)
+			// the same question asked of the bytes alone (C01_save_identity_bytes)
+			emit("C", "member_bytes", H(img))
 		}
 		// a single volume is also an entry shape
 		v := uefigen.GenVol(rr, o, 0)
@@ -65,5 +67,6 @@ func main() {
 	flashops.RegisterAll()
 	// the generator claims membership; the model decides
 	Register("grammar", func(args []string) string { return "member" })
+	Register("member_bytes", func(args []string) string { return "member" })
 	Main(gen)
 }
